@@ -251,7 +251,7 @@ func c12Run(c *ev.Ctx, k c12Case, single bool) {
 }
 
 func checkC12(c *ev.Ctx) {
-	c.Rule("yubiagent.ServeAgent called synchronously on (bytes.Reader, bytes.Buffer) with the real *server (NewServer through the dial seam, remote mode) over the real shim and the harness underlying agent. Streams: every message code 0..255 x {code only, +00, +FF, +4 zero bytes} (wait frames use awaited codes 40/255), the empty frame, ~90 grammar-derived canonical and truncated frames (both add-hardware-certificate encodings, slot names, wait, every standard agent request incl. constraint bytes, raw-forward requests; a frame-length sweep: codes {200, 20, 27, 13, 31, 33} x every body length 1..2100 for the raw-forwarded code, windows of 13 around every multiple of 128 for the others, and within 6 of every power of two up to 2^17, each followed by a list request; a size ladder of well-formed sign / raw / add requests with bodies of 64 KiB, 256 KiB, 256 KiB+1, 1 MiB, 4 MiB and exactly 16 MiB, alone and between small requests; every ordered pair over 8 and triple over 5 medium/large requests on one connection; every large frame up to 1 MiB cut inside its body at every power of two >= 4096 and its neighbours (body and stream offsets), alone and after a complete request), prefix pathologies (0..3 prefix bytes; declared 1, 2, 16MiB, 16MiB+1, 2^31, 2^32-1 with 0/1/all body bytes), every ordered pair of a 37-piece representative set, every piece on a SECOND connection after an earlier connection to the same server ended in one of 8 ways, every triple over a 20-piece subset (thorough: all triples, quadruples over 14). Oracle: no crash, framed output, one response per well-formed request in order with the expected type/content, service ends only at malformed frames and then with an error, clean end returns nil, a stream that ends inside a frame ends with an error, allocation bound for oversized declarations. non-trivial = well-formed request answered; distinct by (frame, position)")
+	c.Rule("yubiagent.ServeAgent called synchronously on (bytes.Reader, bytes.Buffer) with the real *server (NewServer through the dial seam, remote mode) over the real shim and the harness underlying agent. Streams: every message code 0..255 x {code only, +00, +FF, +4 zero bytes} (wait frames use awaited codes 40/255), the empty frame, ~90 grammar-derived canonical and truncated frames (both add-hardware-certificate encodings, slot names, wait, every standard agent request incl. constraint bytes, raw-forward requests; a frame-length sweep: codes {200, 20, 27, 13, 31, 33} x every body length 1..2100 for the raw-forwarded code, windows of 13 around every multiple of 128 for the others, and within 6 of every power of two up to 2^17, each followed by a list request; a size ladder of well-formed sign / raw / add requests with bodies of 64 KiB, 256 KiB, 256 KiB+1, 1 MiB, 4 MiB and exactly 16 MiB, alone and between small requests; every ordered pair over 8 and triple over 5 medium/large requests on one connection; 147 streams with an add-hardware-certificate request (3 encodings) between large requests, followed by a listing and a signature with that certificate; every large frame up to 1 MiB cut inside its body at every power of two >= 4096 and its neighbours (body and stream offsets), alone and after a complete request), prefix pathologies (0..3 prefix bytes; declared 1, 2, 16MiB, 16MiB+1, 2^31, 2^32-1 with 0/1/all body bytes), every ordered pair of a 37-piece representative set, every piece on a SECOND connection after an earlier connection to the same server ended in one of 8 ways, every triple over a 20-piece subset (thorough: all triples, quadruples over 14). Oracle: no crash, framed output, one response per well-formed request in order with the expected type/content, service ends only at malformed frames and then with an error, clean end returns nil, a stream that ends inside a frame ends with an error, allocation bound for oversized declarations. non-trivial = well-formed request answered; distinct by (frame, position)")
 	c.Assume("frames are classified well-formed only when they are canonical encodings produced by the harness grammar (x/crypto's own client for standard requests); for everything else either 'answered' or 'connection ended with an error' is accepted", "awaited codes below 40 block by design and are explored under C20")
 	c12Frames = map[string]frameSpec{}
 	gf := grammarFrames()
@@ -332,6 +332,31 @@ func checkC12(c *ev.Ctx) {
 			for _, b := range multi[:5] {
 				for _, d := range multi[:5] {
 					c12Run(c, c12Case{Pieces: []c12Piece{{Frame: a}, {Frame: b}, {Frame: d}, {Frame: "list"}}, Note: "three large requests on one connection"}, false)
+					n++
+				}
+			}
+		}
+	}
+	// an add-hardware-certificate request between two large requests on one connection, then a listing and a signature with
+	// that certificate: what the server keeps of the request (the parsed certificate goes into the shim's table) must not
+	// live in a per-connection buffer that the next request overwrites
+	{
+		bigs := []string{"", "sign-k1-body5000", "sign-k1-body6000", "lock-pass6000+unlock", "sign-cert", "sign-k1-body65536", "add-ed25519-comment1MiB"}
+		for _, a := range bigs {
+			for _, hc := range []string{"hardcert-new-held-key", "hardcert-legacy-held-key", "hardcert-new-utf8-comment"} {
+				for _, b := range bigs {
+					var ps []c12Piece
+					for _, nm := range []string{a, hc, b} {
+						switch nm {
+						case "":
+						case "lock-pass6000+unlock":
+							ps = append(ps, c12Piece{Frame: "lock-pass6000"}, c12Piece{Frame: "unlock-pass6000"})
+						default:
+							ps = append(ps, c12Piece{Frame: nm})
+						}
+					}
+					ps = append(ps, c12Piece{Frame: "list"}, c12Piece{Frame: "sign-h1"}, c12Piece{Frame: "list"})
+					c12Run(c, c12Case{Pieces: ps, Note: "hardware certificate added between large requests"}, false)
 					n++
 				}
 			}
